@@ -49,7 +49,7 @@ BASES = ['s.lit', 'l.lit', 'l.empty', 'p.lit', 'm.lit', 't.lit', 'g.lit', 'n.lit
 LINK1 = ['s.ref', 's.pre', 'l.ref', 'l.litref', 'l.instr', 'l.quoted', 'p.comp', 'p.rel', 'p.pre', 'm.ref', 'm.neg', 'm.eq',
          't.ref', 't.filt', 't.lm', 'g.ref', 'g.arg', 'n.ref', 'n.tm', 'n.im', 'i.ref', 'i.int',
          'c.name', 'c.ref', 'f.ref', 'f.tm', 'k.ref', 'k.sel', 'o.name', 'o.ref', 'x.ref', 'x.str']
-LINK2 = ['s.two', 'l.two', 'p.relcomp', 'm.or', 't.seq']
+LINK2 = ['s.two', 'l.two', 'p.relcomp', 'm.or', 't.seq', 'g.tt', 'g.in']
 DATA_BASES = ['s.lit', 'l.lit', 'l.empty', 'p.lit']
 DATA_LINK1 = ['s.ref', 's.pre', 'l.ref', 'l.litref', 'l.instr', 'l.quoted', 'l.quoted', 'p.comp', 'p.rel', 'p.pre']
 # quick: chains of two links - the data types and every shape with a "made up of just strings" slot
@@ -62,7 +62,7 @@ CONSTANTS = {
                   TypePhases=['setup'], DeepPhases=['setup'], ExtraUsePhases=['act'],
                   OrderPhases2=ALL_PHASES, OrderPhases3=['setup', 'act', 'assert'], OrderPhases4=[],
                   BaseShapes=BASES, Link1Shapes=LINK1, Link2Shapes=LINK2,
-                  Link2Bases=DATA_BASES + ['m.lit', 't.lit', 'x.lit'],
+                  Link2Bases=DATA_BASES + ['m.lit', 't.lit', 'x.lit', 'g.lit'],
                   ChainBases=DATA_BASES, ChainShapes=QUICK_CHAIN,
                   Chain3Bases=['s.lit', 'l.lit', 'p.lit'], Chain3Shapes=['s.ref', 's.pre'],   # (strings 3 links deep)
                   Ctxs=CTXS),
@@ -123,6 +123,7 @@ VALUE = {
     't.lit': 'replace {l} {nxt}', 't.ref': '{X}', 't.filt': 'filter contents {X}', 't.lm': 'filter {X}',
     't.seq': '{X} | {Y}',
     'g.lit': '% {PROBE} {l}', 'g.ref': '@ {X} {l}', 'g.arg': '% {PROBE} @[{X}]@',
+    'g.tt': '@ {X} {l}\n    -transformed-by {Y}', 'g.in': '@ {X} {l}\n    -stdin @[{Y}]@',
     'c.lit': '{{ {l} }}', 'c.name': '{{ @[{X}]@ }}', 'c.ref': '{X}',
     'f.lit': 'type file', 'f.ref': '{X}', 'f.tm': 'contents {X}',
     'k.lit': 'is-empty', 'k.ref': '{X}', 'k.sel': '-selection {X} is-empty',
@@ -189,8 +190,9 @@ def concretize(task, probe):
         else:
             src = [t.format(**f) for t in USE[ins['shape']]]
         for s in src:
-            lines.append(s)
-            where[len(lines)] = i
+            for part in s.split('\n'):
+                lines.append(part)
+                where[len(lines)] = i
     return '\n'.join(lines) + '\n', where
 
 
